@@ -57,6 +57,7 @@ Next ==
                      [] e.ev = "neutral" -> EvalNeutral(kv, e)
                      [] e.ev = "read"    -> [ok |-> ReadOk(kv, e), kv |-> kv]
                      [] e.ev = "sizes"   -> [ok |-> SizesOk(e), kv |-> kv]
+                     [] e.ev = "poke"    -> [ok |-> TRUE, kv |-> kv]      \* adversarial plant: no observable effect allowed later
                      [] OTHER            -> [ok |-> FALSE, kv |-> kv]
           IN /\ kv' = r.kv /\ caps' = caps
              /\ skip' = ~r.ok
